@@ -550,6 +550,7 @@ type LiveResp struct {
 	panicVal   interface{}
 	lateWrites int
 	cancel     context.CancelFunc
+	Goid       string
 	inWrite    int32
 	Overlaps   int64
 	// WriteHook, if set, is called (outside the lock) at the start of every Write / Flush: schedule perturbation.
@@ -592,6 +593,7 @@ func (l *LiveResp) Write(p []byte) (int, error) {
 	defer l.mu.Unlock()
 	if l.returned {
 		l.lateWrites++
+		return 0, fmt.Errorf("http: write on a response whose handler has returned")
 	}
 	if l.failWrites.Load() {
 		return 0, fmt.Errorf("write: broken pipe")
@@ -624,8 +626,17 @@ func (l *LiveResp) Flush() {
 	l.mu.Unlock()
 }
 
+// StartLiveHook is StartLive with a function that runs in the handler's goroutine before the handler.
+func StartLiveHook(h http.Handler, method, url string, hdr map[string]string, atStart func()) *LiveResp {
+	return startLive(h, method, url, hdr, nil, nil, atStart)
+}
+
 // StartLive runs handler.ServeHTTP(lr, req) in a goroutine.
 func StartLive(h http.Handler, method, url string, hdr map[string]string, body []byte, hook func(string, int)) *LiveResp {
+	return startLive(h, method, url, hdr, body, hook, nil)
+}
+
+func startLive(h http.Handler, method, url string, hdr map[string]string, body []byte, hook func(string, int), atStart func()) *LiveResp {
 	ctx, cancel := context.WithCancel(context.Background())
 	var rd io.Reader
 	if body != nil {
@@ -648,9 +659,22 @@ func StartLive(h http.Handler, method, url string, hdr map[string]string, body [
 			l.cond.Broadcast()
 			l.mu.Unlock()
 		}()
+		l.mu.Lock()
+		l.Goid = goid()
+		l.mu.Unlock()
+		if atStart != nil {
+			atStart()
+		}
 		h.ServeHTTP(l, req)
 	}()
 	return l
+}
+
+// HandlerGoid returns the id of the goroutine running the handler ("" until it started).
+func (l *LiveResp) HandlerGoid() string {
+	l.mu.Lock()
+	defer l.mu.Unlock()
+	return l.Goid
 }
 
 // PeerGone cancels the request context (what net/http does when the peer disconnects) and fails later writes.
